@@ -83,6 +83,13 @@ func (p *Path) builtin(fr *Frame, b *ssa.Builtin, args []Value, isDefer bool) Va
 			if x.arr != nil {
 				p.arrCopy(x.arr, x.off, &ANode{kind: aZero}, tt.U64(0), x.n)
 			}
+		case GSlice:
+			if x.arr != nil {
+				et := b.Type().(*types.Signature).Params().At(0).Type().Underlying().(*types.Slice).Elem()
+				for i := 0; i < x.n; i++ {
+					x.arr.cells[x.off+i] = p.zero(et)
+				}
+			}
 		default:
 			p.unsupported("clear of %T", args[0])
 		}
